@@ -134,7 +134,11 @@ func BinaryNamed(moduleName string) []byte {
 	for i := 0; i < 3; i++ {
 		c := &wasmb.Code{}
 		c.I32Const(int32(StartMarker + i)).I32Const(1).I32Store8(0)
-		m.AddFunc(nil, nil, nil, c.B, fmt.Sprintf("s%d", i+1))
+		exp := fmt.Sprintf("s%d", i+1)
+		if moduleName != "" && i == 0 {
+			exp = "" // the named variant does not export s1: a configured start function may be absent
+		}
+		m.AddFunc(nil, nil, nil, c.B, exp)
 	}
 	m.Mem = &wasmb.Limits{Min: MemPages, Max: MemPages, HasMax: true}
 	m.Exports = append(m.Exports, wasmb.Export{Name: "memory", Kind: wasmb.KindMemory, Idx: 0})
